@@ -249,12 +249,14 @@ def evaluate(ctx, cases, label):
             ctx.violation(sig, what + ": " + cases[i]["desc"], cases[i]["replay"])
     l2 = sorted(set(failing["L2"]))
     l2h = sorted(set(failing["L2_header"]) - set(i for i, c in enumerate(cases) if c.get("no_header_l2")))
-    if l2:
-        ctx.disagreements_checked += len(l2)
-        ctx.l2_disagreement("VcfRecord.phase_writer = PhasedVcfWriter output (L2)", [cases[i]["desc"] for i in l2])
-    if l2h:
-        ctx.disagreements_checked += len(l2h)
-        ctx.l2_disagreement("VcfRecord.out_header = output header (L2)", [cases[i]["desc"] for i in l2h])
+    for idxs, name in ((l2, "VcfRecord.phase_writer = PhasedVcfWriter output (L2)"),
+                       (l2h, "VcfRecord.out_header = output header (L2)")):
+        if idxs:
+            ctx.disagreements_checked += len(idxs)
+            ctx.l2_disagreement(name, [cases[i]["desc"] for i in idxs])
+            # also as a violation of its own, so that an unrelated finding of the same run cannot mask it
+            ctx.violation("correspondence:" + name.split(" (")[0], "the model no longer describes the code: " + name + " :: "
+                          + cases[idxs[0]]["desc"], cases[idxs[0]]["replay"], found_input=False)
     return failing
 
 
